@@ -280,7 +280,18 @@ class Runner:
         if pipe is None:
             return
         T = type("HarnessTuning", (TransportTuning,), {"MAX_RETRANSMIT": mr, "reliability": rel})
-        msg = aiocoap.Message(code=aiocoap.Code(code), transport_tuning=T())
+        shared = getattr(self, "_shared_response", None)
+        if self.script.get("alias_responses") and shared is not None:
+            # the application keeps ONE response object (a pre-built representation, say) and hands it out for
+            # every request, updating its content
+            msg = shared
+            msg.code = aiocoap.Code(code)
+            msg.payload = b""
+            msg.opt.observe = None
+            msg.opt.no_response = None
+        else:
+            msg = aiocoap.Message(code=aiocoap.Code(code), transport_tuning=T())
+            self._shared_response = msg
         if mt is not None:
             msg.mtype = aiocoap.Type(TYPES.index(mt))
         if obs is not None:
